@@ -69,8 +69,27 @@ def _mask_calls(w, lo):
     return out
 
 
+def _children(w, rec, stage):
+    """Stage records of `stage` made underneath call `rec` (in any simulated process)."""
+    out = []
+    hi = rec.get('seq_out', 1 << 60)
+    for r in w.stage_trace[rec['id'] + 1:]:
+        if r['seq'] > hi:
+            break
+        if r['stage'] != stage:
+            continue
+        p = r['parent']
+        while p is not None and p != rec['id']:
+            p = w.stage_trace[p]['parent']
+        if p == rec['id']:
+            out.append(r)
+    return out
+
+
 def _check_mask_call(w, S, rec, batches, tag):
-    """Items 1-3 and 5 for one get_next_imf_mask call.  Returns False after a violation."""
+    """Items 1-3 and 5 for one get_next_imf_mask call, from the single-IMF extractions recorded underneath it
+    (however the implementation packs them into pool jobs).  Returns False after a violation."""
+    import seams
     b = rec['bound']
     if b is None:
         raise W.HarnessError('get_next_imf_mask called with unbindable arguments')
@@ -81,45 +100,53 @@ def _check_mask_call(w, S, rec, batches, tag):
     if 'out' not in rec:
         return True
     out, flag = rec['out']
-    if len(batches) != 1:
-        w.violation('mask-structure', tag, 'one masked extraction used %d pool batches' % len(batches))
+    subs = _children(w, rec, 'get_next_imf')
+    if any(r['task'] is None for r in subs):
+        w.probe('mask_extraction_in_parent')
+    if len(subs) != nph:
+        w.violation('mask-phases', tag, 'nphases=%d but %d single-IMF extractions were run' % (nph, len(subs)))
         return False
-    bt = batches[0]
-    if bt['n'] != nph:
-        w.violation('mask-phases', tag, 'nphases=%d but %d mask jobs were run' % (nph, bt['n']))
-        return False
+    if any('out' not in r or r['bound'] is None for r in subs):
+        return True
     N = X.shape[0]
     t = np.arange(N)
-    A, R, F = [], [], []
+    scale = max(abs(float(amp)), float(np.max(np.abs(X))), 1.0)
+    A = [np.asarray(r['x'], dtype=float).reshape(N, 1) for r in subs]
+    R = [np.asarray(r['out'][0], dtype=float).reshape(N, 1) for r in subs]
+    F = [bool(r['out'][1]) for r in subs]
+    # 1. mask definition: the set of masks is the documented one, each phase exactly once
+    unused = list(range(nph))
     for k in range(nph):
-        task = bt['tasks'][k]
-        a = task['args'][0] if isinstance(task['args'], (tuple, list)) else task['args']
-        a = np.asarray(a, dtype=float).reshape(N, 1)
-        A.append(a)
-        R.append(np.asarray(task['result'][0], dtype=float).reshape(N, 1))
-        F.append(bool(task['result'][1]))
-        # 1. mask definition
         want = amp * np.cos(2 * np.pi * z * t + 2 * np.pi * k / nph)[:, None]
-        scale = max(abs(float(amp)), float(np.max(np.abs(X))), 1.0)
-        err = float(np.max(np.abs((a - X) - want)))
-        if err > 1e-12 * scale * 8:
+        hit = None
+        for j in unused:
+            if float(np.max(np.abs((A[j] - X) - want))) <= 1e-12 * scale * 8:
+                hit = j
+                break
+        if hit is None:
+            err = min(float(np.max(np.abs((A[j] - X) - want))) for j in range(nph))
             w.violation('mask-definition', tag,
-                        'mask job %d of %d: signal-plus-mask differs from X + amp*cos(2*pi*z*t + 2*pi*k/nphases) '
-                        'by %.3g (z=%.6g amp=%.6g)' % (k, nph, err, z, amp))
+                        'no extraction was applied to X + amp*cos(2*pi*z*t + 2*pi*%d/%d): closest signal-plus-mask is off by %.3g '
+                        '(z=%.6g amp=%.6g)' % (k, nph, err, z, amp))
             return False
-        # 2. worker computation == same function on the same bytes in the parent
+        unused.remove(hit)
+    # 2. worker computation == same function on the same bytes in the parent
+    gni = seams.stage_original('get_next_imf')
+    for j, r in enumerate(subs):
+        kw = {k2: v for k2, v in r['bound'].items() if k2 != 'X'}
         with C.quiet_trace(w):
-            again = bt['func'](a.copy())
-        if not (np.array_equal(again[0], task['result'][0]) and bool(again[1]) == bool(task['result'][1])):
+            again = gni(A[j].copy(), **kw)
+        if not (np.array_equal(again[0], r['out'][0]) and bool(again[1]) == F[j]):
             w.violation('worker-state-leak', tag,
-                        'mask job %d returned a different result in worker %d than the same function on the same '
-                        'input in the parent' % (k, task['worker']))
+                        'single-IMF extraction %d returned a different result in process %d than the same call on the '
+                        'same input in the parent' % (j, r['pid']))
             return False
-    # 3. recombination: mask removal, averaging, result order
-    want = np.mean(np.concatenate([R[k] - (A[k] - X) for k in range(nph)], axis=1), axis=1)[:, None]
+    # 3. recombination: each mask removed from the IMF it was added to, equal-weight mean over phases
+    want = np.mean(np.concatenate([R[j] - (A[j] - X) for j in range(nph)], axis=1), axis=1)[:, None]
     if out.shape != want.shape or not C.rel_close(out, want, 1e-12):
+        bt = batches[0] if batches else {'order': None, 'assign': None}
         w.violation('mask-recombination', tag,
-                    'masked IMF is not the mean over phases of (worker result minus its own mask): max rel err %.3g '
+                    'masked IMF is not the mean over phases of (extraction result minus its own mask): max rel err %.3g '
                     '(completion order %s, job->worker %s)' % (
                         C.max_rel_err(out, want) if out.shape == want.shape else float('nan'), bt['order'], bt['assign']))
         return False
@@ -129,8 +156,9 @@ def _check_mask_call(w, S, rec, batches, tag):
     # 5. zero amplitude
     if float(amp) == 0.0:
         w.probe('zero_amplitude_checked')
+        kw = {k2: v for k2, v in subs[0]['bound'].items() if k2 != 'X'}
         with C.quiet_trace(w):
-            ref = bt['func'](X.copy())
+            ref = gni(X.copy(), **kw)
         if not C.rel_close(out, ref[0], 1e-12):
             w.violation('zero-amplitude', tag, 'zero-amplitude masked extraction differs from unmasked extraction '
                         '(max rel err %.3g)' % C.max_rel_err(out, ref[0]))
@@ -170,12 +198,12 @@ def scenario(w):
                 L = [f * (1 + 0.1 * ((i * 7) % 3)) for i, f in enumerate(L)]
             mf = {'list': list, 'array': np.array, 'tuple': tuple}[src](L)
         if ch.flag('amp_array', 1, 3):
-            base = [1.0, 0.5, 2.0, 0.0, 1.5, 0.25]
+            base = [[1.0, 0.5, 2.0, 0.0, 1.5, 0.25], [3, 2, 2, 1, 1, 4]][ch.pick('amp_integers', 2)]
             rot = ch.pick('amp_rot', 6)
             vals = (base[rot:] + base[:rot])[:max(max_imfs, 1)]
-            ma = np.array(vals) if ch.flag('amp_as_ndarray', 1, 2) else list(vals)
+            ma = [np.array(vals), list(vals), tuple(vals)][ch.pick('amp_container', 3)]
         else:
-            ma = ch.choice('mask_amp', [1, 0.5, 2.0, 0, 3])
+            ma = ch.choice('mask_amp', [1, 0.5, 2.0, 0, 3, np.float64(1.5)])
         kw = dict(mask_amp=ma, mask_amp_mode=amode, mask_freqs=mf, mask_step_factor=step, ret_mask_freq=True,
                   max_imfs=max_imfs, nphases=nph, imf_opts=imf_opts)
         desc.update(mask_freqs=mf, mask_amp=ma, mask_amp_mode=amode, mask_step_factor=step, max_imfs=max_imfs)
@@ -289,7 +317,7 @@ def scenario(w):
             w.violation('mask-frequencies', tag + ':used', 'layer %d used mask frequency %r but %r was returned' % (i, b['z'], freqs_arr[i]))
             return
         ma = kw['mask_amp']
-        a_i = float(ma[i]) if isinstance(ma, (list, np.ndarray)) else float(ma)
+        a_i = float(ma[i]) if isinstance(ma, (list, tuple, np.ndarray)) else float(ma)
         if amode == 'abs':
             sd = 1.0
         elif amode == 'ratio_sig':
